@@ -213,14 +213,19 @@ def mc_notation(run, tier):
                                 "Inv_UciRoundTrip", "Inv_FenRoundTrip", "Inv_Valid"]}
 
 
-def mc_famimpl(run, tier, seed, fams, module="MC_FamImpl", mult=(4, 3), what=None, cfg=None, corpus=None):
+def mc_famimpl(run, tier, seed, fams, module="MC_FamImpl", mult=(4, 3), what=None, cfg=None, corpus=None, rel=False):
     """Engine MC: refinement obligations (prefilter/pin logic, generator, has_legal_moves, make/unmake with
     incremental hash and sets; with module=MC_SanImpl: the SAN writer/reader) on the structured families, at
     the design level."""
     qi = 0 if tier == "quick" else 1
     t0 = time.time()
     def one(f):
-        stride = FAM_STRIDE[f][qi] * mult[qi]
+        # mult = (quick multiplier of the family's quick stride, divisor applied to THAT stride in the thorough tier)
+        # when `rel` is set; otherwise (multiplier of the quick stride, multiplier of the thorough stride)
+        if rel:
+            stride = FAM_STRIDE[f][0] * mult[0] if qi == 0 else max(1, FAM_STRIDE[f][0] * mult[0] // mult[1])
+        else:
+            stride = FAM_STRIDE[f][qi] * mult[qi]
         r = run_tlc(module, cfg or module + ".cfg", env={"FAM_" + f: 1, "STRIDE": stride, "SEED": seed, "EPFIX": 1},
                     workers=max(2, NCPU // len(fams)), xmx="4g", timeout=3400, tag=f"{module}-{run.prop}-{f}", gc_threads=2)
         return f, stride, r
@@ -957,13 +962,13 @@ def plan_generic(prop, tier, seed):
         if prop == "C09":
             # the SAN writer/reader as the code does it (SanImpl) against the reference reading, on the families
             mc_famimpl(run, tier, seed, ["AMBIG", "PIN", "EPX", "PROMO", "CASTLE", "DBLCHK"], module="MC_SanImpl",
-                       mult=(20, 8), what="Inv_SanRefines (Obl_SanWrite, Obl_SanRoundTrip, Obl_SanRead)",
+                       mult=(20, 5), rel=True, what="Inv_SanRefines (Obl_SanWrite, Obl_SanRoundTrip, Obl_SanRead)",
                        corpus=(1, 16) if tier == "quick" else (1, 122))
         if prop == "C10":
             # the UCI readers as the code does them (kind guessed from the board, Move::new, validators) on all
             # 20 480 (source, destination, promotion) triples of each position
             mc_famimpl(run, tier, seed, ["EPX", "EPEVADE", "PROMO", "CASTLE", "PIN"], module="MC_SanImpl", cfg="MC_UciImpl.cfg",
-                       mult=(30, 8), what="Inv_UciRefines (Obl_Uci)", corpus=(20, 32) if tier == "quick" else (1, 122))
+                       mult=(30, 5), rel=True, what="Inv_UciRefines (Obl_Uci)", corpus=(20, 32) if tier == "quick" else (1, 122))
     if prop == "C11":
         # the validator as the code does it (ImplTryFrom: normalisations first, tests in code order) against
         # Conditions / Normalise, on the disturbed raw boards of the RAW family (stride 1 = all of them)
